@@ -149,8 +149,51 @@ def _open_task(variant, fmt):
     return mk
 
 
+def _tier_task(pi, si):
+    from mc.props import compose, live
+    from mc.props.common import mk, canon
+    name, props, f = compose.TIER_PRODUCERS[pi]
+    state = compose.SEEDS[si]
+
+    def mkt():
+        t = mk(state)
+        o = [mk(x) for x in compose.OTHERS[state[0]]] + [mk(live.LATE[state[0]])]
+
+        def task():
+            r = f(t, o)
+            return (canon(r), canon(t), [canon(x) for x in o])
+        return task
+    return mkt
+
+
+def _tgop_task(pi, si):
+    from mc.props import compose
+
+    def mkt():
+        tg = compose._tg_seed(si)
+
+        def task():
+            r = compose.TG_PRODUCERS[pi][2](tg)
+            return (snap_tg(r), snap_tg(tg))
+        return task
+    return mkt
+
+
 def _check(case):
     kind, fmt, extra = case
+    if kind == "tier-op":
+        from mc.props import compose
+        name = compose.TIER_PRODUCERS[fmt][0]
+        sa, sb = extra
+        if any(compose.SEEDS[x][0] == "P" for x in (sa, sb)) and name in compose.ONLY_INTERVAL:
+            return 0, "n/a", None, []
+        n, p, v = explore(_tier_task(fmt, sa), _tier_task(fmt, sb), f"tier operation {name} in two threads on two different tiers (seeds {sa} and {sb})")
+        return p, "ok" if not v else "!", (kind, name, n), v
+    if kind == "tg-op":
+        from mc.props import compose
+        name = compose.TG_PRODUCERS[fmt][0]
+        n, p, v = explore(_tgop_task(fmt, 0), _tgop_task(fmt, 1), f"textgrid operation {name} in two threads on two different textgrids")
+        return p, "ok" if not v else "!", (kind, name, n), v
     if kind == "save-save":
         n, p, v = explore(_save_task(0, fmt, extra), _save_task(1, fmt, extra), f"two saves ({fmt}, includeBlankSpaces={extra}) of different textgrids to different files")
     elif kind == "open-open":
@@ -163,9 +206,13 @@ def _check(case):
 FMTS = ("short_textgrid", "long_textgrid", "json", "textgrid_json")
 
 
-def part(prop):
-    kinds = {"C01": ("save-save", "open-open", "save-open"), "C02": ("save-save",), "C03": ("open-open",), "C04": ("save-save",)}.get(prop)
-    if not kinds:
+def part(prop, tier="quick"):
+    kinds = {"C01": ("save-save", "open-open", "save-open"), "C02": ("save-save",), "C03": ("open-open",), "C04": ("save-save",)}.get(prop, ())
+    from mc.props import compose
+    tier_cases, tg_cases = compose._cases(prop) if prop not in ("C01", "C03") else ([], [])
+    tier_ops = sorted({pi for si, pi in tier_cases})
+    tg_ops = sorted({pi for si, pi in tg_cases if not compose.TG_PRODUCERS[pi][0].startswith("reopened")})
+    if not kinds and not tier_ops and not tg_ops:
         return None
 
     def gen():
@@ -173,10 +220,16 @@ def part(prop):
             for fmt in FMTS:
                 for extra in ((True, False) if k == "save-save" else (None,)):
                     yield (k, fmt, extra)
+        for pi in tier_ops:      # the same operation in both threads (that is where a function-local-turned-module-level scratch value collides)
+            yield ("tier-op", pi, (0, 1))
+            if tier != "quick" or len(tier_ops) < 12:
+                yield ("tier-op", pi, (2, 5))
+        for pi in tg_ops:
+            yield ("tg-op", pi, None)
     return InputPart("two-threads-one-preemption", gen, _check,
                      rule="two library calls on disjoint objects and files in two threads (%s x 4 formats): EVERY schedule with one preemption - the "
                           "first task is switched out before each of its line-level scheduling points inside the praatio sources in turn, the other "
                           "task runs to completion, the first resumes; roles swapped; plus both sequential orders - must leave each task's result "
                           "(file bytes / opened textgrid) exactly what the task gives alone; schedules are replayed deterministically (scheduling-point "
-                          "counts must match the reference run)" % ", ".join(kinds),
+                          "counts must match the reference run); likewise every tier / textgrid operation of this property run in both threads on two different objects" % (", ".join(kinds) or "file operations: none here"),
                      bounds={"threads": 2, "preemptions": 1, "granularity": "line events in praatio/*"}, chunk=1)
